@@ -1,1 +1,61 @@
-(* Props/C08.v -- stub, to be filled *)
+(* Props/C08.v -- pinned statements of property C08 (generated Rust carries the whole model).
+
+   PARTIAL: what is proved is the core of the invertibility argument -- the attribute TYPE sub-language: every type the
+   generator can print into `#[asn(..)]` (the image of RustType::into_asn: boolean, null, integer ranges incl.
+   negative numbers and min/max, the five character string kinds, octet_string, bit_string, every size form,
+   optional(..), default(.., literal), sequence_of / set_of with and without size, complex(Name, tag(..)) with the four
+   tag classes) is read back by the model of the macro's parser as the same type.
+   Not covered by a theorem (tie / oracle of checks/C08.py only): the attribute level (tag(..), extensible_after(..),
+   const(..)), the item level (struct / enum bodies, field and variant names), the composition with to_rust and
+   to_rust_keep_names, the expansion constants; the lexing of the printed text by proc_macro2 is trusted.
+   Excluded by hypothesis and refuted below (they are real deviations of the crate, found again by the oracle):
+   half-open integer ranges, OCTET/BIT STRING default literals, complex(Name) without a tag. *)
+From A1 Require Import Base.Res Front.Codegen Front.Attr Front.CodegenProofs.
+From Coq Require Import String.
+Local Open Scope N_scope.
+
+Theorem C08_reparse_type_partial : forall t,
+  wf_aty t -> parse_attr_type (S (depth t)) (print_ty t) = Ok t.
+Proof. exact reparse_type. Qed.
+
+(* the same inside a larger buffer: what the nested productions rely on (the rest starts with punctuation or is empty) *)
+Theorem C08_reparse_type_in_context : forall t, wf_aty t -> forall fuel rest,
+  (depth t < fuel)%nat -> rest_ok rest -> parse_ty fuel (print_ty t ++ rest) = Ok (t, rest).
+Proof. exact reparse_ty. Qed.
+
+(* INTEGER (1..MAX, ...) is printed as integer(1..max,...) and comes back as 1..i64::MAX *)
+Theorem C08_refuted_half_open_range :
+  parse_attr_type 1 (print_ty (AInt (Some 1%Z) None true)) = Ok (AInt (Some 1%Z) (Some I64_MAX) true) /\
+  parse_attr_type 1 (print_ty (AInt None (Some 70000%Z) true)) = Ok (AInt (Some 0%Z) (Some 70000%Z) true) /\
+  parse_attr_type 1 (print_ty (AInt None (Some 0%Z) true)) = Ok (AInt (Some I64_MIN) (Some 0%Z) true).
+Proof. repeat split; vm_compute; reflexivity. Qed.
+
+(* OCTET STRING DEFAULT '00'H is printed as default(octet_string, [0x00, ]): not a literal the macro reads *)
+Theorem C08_refuted_octet_default :
+  parse_attr_type 2 (print_ty (ADef (AOct SAny) (LOct [0]))) = Err E_SYN.
+Proof. vm_compute. reflexivity. Qed.
+
+(* a reference whose tag is unknown is printed as complex(Name); the parser insists on `, tag(..)` *)
+Theorem C08_refuted_untagged_complex :
+  parse_attr_type 1 (print_ty (ARef (codes "External") None)) = Err E_SYN.
+Proof. vm_compute. reflexivity. Qed.
+
+(* non-vacuity: a deep well-formed type using most productions *)
+Definition sample : aty :=
+  ADef (AOpt (ASeqOf (ASetOf (AInt (Some (-5)%Z) (Some 5%Z) true) (SRange 1 4 true)) (SFix 2 false)))
+       (LEnum (codes "Colour") (codes "DarkBlue")).
+Example C08_nonvacuous : wf_aty sample /\ parse_attr_type (S (depth sample)) (print_ty sample) = Ok sample.
+Proof.
+  split; [|vm_compute; reflexivity].
+  cbn [sample wf_aty wf_lit wf_size]. repeat split; try reflexivity; try (vm_compute; intros H; discriminate H); vm_compute; intros H; discriminate H.
+Qed.
+
+Example C08_nonvacuous_ref :
+  wf_aty (AOpt (ARef (codes "Other") (Some (TApplication 7)))) /\ wf_aty (AStr (SRange 0 255 false) Ia5) /\ wf_aty (ABits SAny).
+Proof. cbn [wf_aty wf_size]. repeat split; try reflexivity; vm_compute; intros H; discriminate H. Qed.
+
+Print Assumptions C08_reparse_type_partial.
+Print Assumptions C08_reparse_type_in_context.
+Print Assumptions C08_refuted_half_open_range.
+Print Assumptions C08_refuted_octet_default.
+Print Assumptions C08_refuted_untagged_complex.
